@@ -103,7 +103,8 @@ def build(rnd, tier, flags):
     meta["variant_stmts"] = sum(1 for st, _ in flat if st.src != st.canon)
     meta["tricky_literal"] = any(re.search(r"'[^']*[!&;\"][^']*'|\"[^\"]*[!&;'][^\"]*\"|''|\"\"", s) for s in srcs)
     meta["features"] = sorted(lay.features)
-    case = {"src": lay.text, "std": std, "expected": [e for e, _ in exp], "kinds": [k for _, k in exp], "meta": meta}
+    case = {"src": lay.text, "std": std, "expected": [e for e, _ in exp], "kinds": [k for _, k in exp], "meta": meta,
+            "second_parse": r.chance(40)}
     return case, progs.excluded_counts(g, lay)
 
 
@@ -119,6 +120,11 @@ def evaluate(case):
     if meta.get("n_units", 0) >= 2:
         labels.append("multi_unit")
     labels += ["layout:" + f for f in feats]
+    if case.get("second_parse"):
+        # the property holds for every parse, not only for the first one of a text in a process: the tokens are
+        # taken from a second parse of the same source (line-level caches in the reader must not leak)
+        labels.append("second-parse-of-same-text")
+        guarded_parse(case["src"], std=case["std"], ignore_comments=True)
     o = guarded_parse(case["src"], std=case["std"], ignore_comments=True, want_str=True)
     if o.kind != "tree" or o.tree is None:
         ln, q = progs.syntax_error_line(o.text)
